@@ -393,6 +393,139 @@ def multipass_expr_cases(run):
             break
 
 
+OUTCOME_HEAD = """From Coq Require Import List Bool Arith.
+From NV Require Import Model.FitCore Model.FitOutcome.
+Import ListNotations.
+Definition o (seg : list bool) (n : nat) : optres nat nat :=
+  mkO n n (repeat n (count seg)) (repeat n (count seg)) n n.
+Definition isnum (l : list (option nat)) : list bool :=
+  map (fun v => match v with Some _ => true | None => false end) l.
+Definition oeq (a b : option nat) : bool :=
+  match a, b with Some x, Some y => Nat.eqb x y | None, None => true | _, _ => false end.
+Fixpoint beq (a b : list bool) : bool :=
+  match a, b with
+  | [], [] => true
+  | x :: a', y :: b' => Bool.eqb x y && beq a' b'
+  | _, _ => false
+  end.
+Fixpoint number (seg : list bool) (i : nat) (l : list (nat * nat)) : list (pass nat nat) :=
+  match l with [] => [] | (v, n) :: t => mkP v n (o seg i) :: number seg (S i) t end.
+(* the state before: what a previous successful fit (marked 999) left *)
+Definition before (seg : list bool) (prev : bool) : fstate nat nat :=
+  if prev then mkF (scatter seg (repeat 999 (count seg))) (scatter seg (repeat 999 (count seg)))
+                   true (Some 999) (Some 999) (Some 999) (Some 999)
+  else mkF (blank seg) (blank seg) false None None None None.
+Definition agrees (seg : list bool) (prev : bool) (l : list (nat * nat))
+    (succ : bool) (fitted chi xmin xmax : option nat) (pc pr : list bool) : bool :=
+  let s := fit_outcome seg (before seg prev) (number seg 0 l) in
+  Bool.eqb (f_success s) succ && oeq (f_fitted s) fitted && oeq (f_chi s) chi
+  && oeq (f_xmin s) xmin && oeq (f_xmax s) xmax
+  && beq (isnum (f_cur s)) pc && beq (isnum (f_res s)) pr.
+"""
+
+
+def outcome_model_cases(run):
+    """coq/Model/FitOutcome.v against the library: sequences of fits on one
+    curve (absolute, contact-point-relative and plateau-search fits, some of
+    which cannot be done in their last pass); the passes are recorded by
+    wrapping IndentationFitter._fit in this process, and the state left by
+    every fit_model call is compared with the model's outcome for the same
+    passes (which pass the reported parameters, chi-square and xmin/xmax come
+    from, success, and where the two columns hold numbers)."""
+    import nanite.fit as nfit
+    log = []
+    orig = nfit.IndentationFitter._fit
+
+    def snap(fp):
+        pf = fp.get("params_fitted")
+        return (None if pf is None else
+                tuple((k, float(v.value)) for k, v in pf.items()),
+                fp.get("chi_sqr"), fp.get("xmin"), fp.get("xmax"))
+
+    def wrapped(self):
+        nv = int(np.sum([p.vary for p in self.fp["params_initial"].values()]))
+        npnts = int(np.sum(self.fit_range))
+        orig(self)
+        log.append((nv, npnts, bool(self.fp["success"]), snap(self.fp)))
+
+    A = dict(range_type="absolute", range_x=[0, 0])
+    B = dict(range_type="absolute", range_x=[5e-6, 5.00001e-6])
+    C = dict(range_type="relative cp", range_x=[1e-3, 2e-3])
+    D = dict(range_type="relative cp", range_x=[-1e-6, 1e-6])
+    E = dict(range_type="absolute", range_x=[-1.5e-6, 1e-6],
+             optimal_fit_edelta=True, optimal_fit_num_samples=20)
+    F = dict(range_type="absolute", range_x=[-1.99e-6, -1.97e-6])
+    OFF = dict(optimal_fit_edelta=False)
+    seqs = [[A, B], [A, C], [C, A], [D, C, B, A], [B, D], [A, F, D],
+            [E, dict(B, **OFF)], [E, dict(C, **OFF), dict(A, **OFF)],
+            [D, dict(E), dict(F, **OFF)], [C, B, F]]
+    if run.tier == "thorough":
+        pool = [A, B, C, D, F]
+        for _ in range(25):
+            seqs.append([dict(pool[int(run.rng.integers(len(pool)))])
+                         for _ in range(int(run.rng.integers(2, 6)))])
+    exprs, descr = [], []
+    nfit.IndentationFitter._fit = wrapped
+    try:
+        for si, seq in enumerate(seqs):
+            for segment in (0, 1):
+                cols = fits.model_curve("hertz_para", fits.default_params(
+                    "hertz_para", contact_point=1e-7), n_app=100, n_ret=50)
+                idnt = curves.make_indentation(cols)
+                prev = False
+                for ci, kw in enumerate(seq):
+                    del log[:]
+                    what = f"sequence {si} segment {segment} call {ci} {kw}"
+                    try:
+                        idnt.fit_model(model_key="hertz_para", segment=segment,
+                                       **kw)
+                    except BaseException as e:
+                        # a refused request (plateau search on unsuitable
+                        # data, ...) is not a fit; nothing to compare
+                        run.case({"outcome": what, "raised": type(e).__name__},
+                                 kind="outcome-raised")
+                        break
+                    fp = idnt.fit_properties
+                    if not log:
+                        continue        # same hash: nothing was done
+                    run.case({"outcome": what}, nontrivial=True,
+                             kind="outcome-%d-passes-%s" % (
+                                 len(log), "ok" if fp.get("success") else "refused"))
+                    fin = snap(fp)
+
+                    def idx(j):
+                        if fin[j] is None:
+                            return "None"
+                        m = [i for i, l_ in enumerate(log)
+                             if l_[2] and l_[3][j] == fin[j]]
+                        return "(Some %d)" % (m[-1] if m else 998)
+                    seg = np.asarray(idnt["segment"]) == segment
+                    b = lambda a: "[" + ";".join(
+                        "true" if v else "false" for v in a) + "]"
+                    exprs.append(
+                        "agrees %s %s [%s] %s %s %s %s %s %s %s" % (
+                            b(seg), "true" if prev else "false",
+                            ";".join("(%d,%d)" % (l_[0], l_[1]) for l_ in log),
+                            "true" if fp.get("success") else "false",
+                            idx(0), idx(1), idx(2), idx(3),
+                            b(~np.isnan(idnt["fit"])),
+                            b(~np.isnan(idnt["fit residuals"]))))
+                    descr.append(what)
+                    prev = bool(fp.get("success"))
+    finally:
+        nfit.IndentationFitter._fit = orig
+    bad = fits.eval_bool_cases(run, "c04_outcome", exprs, descr,
+                               head=OUTCOME_HEAD, chunk=30)
+    for i in bad:
+        run.failing(SITE, "outcome:" + common.sha(descr[i])[:16],
+                    f"{descr[i]}: what the fit leaves behind differs from the "
+                    "outcome of its last pass (coq/Model/FitOutcome.v): "
+                    + exprs[i][-200:],
+                    payload={"kind": "rerun"},
+                    theorem="C04_outcome_is_last_pass")
+    run.extra["outcome_model_cases"] = len(exprs)
+
+
 def check(run):
     run.sources = common.source_digests(
         ["src/nanite/fit.py", "src/nanite/model/residuals.py",
@@ -406,7 +539,8 @@ def check(run):
     except gen_formulas.TranslationError as e:
         run.obligation("translation", False, str(e))
     common.prove(run, "C04", extra_targets=["Model/FitCoreF.vo",
-                                            "Gen/WeightsF.vo"])
+                                            "Gen/WeightsF.vo",
+                                            "Model/FitOutcome.vo"])
     run.trusted = [
         "Coq 8.16.1 kernel + vm_compute with primitive floats (bit-exact "
         "execution of the binary64 instance); Reals axioms for the theorems",
@@ -446,6 +580,7 @@ def check(run):
     analysis_history_cases(run)
     weights_history_cases(run)
     multipass_expr_cases(run)
+    outcome_model_cases(run)
     for kf in run.known:
         if kf.get("status") == "fixed":
             run.fixed_must_pass(kf["id"], not any(
